@@ -419,7 +419,11 @@ func Build1(n *Node, m Built) error {
 	case "grpc":
 		return extgrpc.WrapWithGrpcCode(kids[0], codes.Code(n.N[0]))
 	case "newfw":
-		return errors.Newf(esc(S[0])+" %w "+esc(S[1]), kids[0])
+		verb := " %w "
+		if len(n.N) > 0 && n.N[0] == 1 {
+			verb = " %[1]w " // the same verb with an explicit argument index
+		}
+		return errors.Newf(esc(S[0])+verb+esc(S[1]), kids[0])
 	case "gstatuswrap":
 		return gstatus.WrapErr(codes.Code(n.N[0]), S[0], kids[0])
 	// ---- foreign wrappers
@@ -528,6 +532,9 @@ func Build1(n *Node, m Built) error {
 	case "gojoin":
 		return goErr.Join(kids...)
 	case "goerrorfmulti":
+		if len(n.N) > 0 && n.N[0] == 1 {
+			return fmt.Errorf("%w + %w: %s", kids[0], kids[1], S[0]) // the text does NOT end with the last cause's text
+		}
 		return fmt.Errorf("%s: %w + %w", S[0], kids[0], kids[1])
 	case "multinofmt":
 		return &MultiNoFmt{S[0], kids}
